@@ -101,7 +101,7 @@ Theorem filter_emits_mpeg2_crc c pid items want :
   let sect := ser_sec_nocrc (filtered_sec (sec c) want) in
   Pmt.filter_pmt_packets (ser_items pid true items) want =
   Ok (let missing := missing_of (map Pmt.epid (sstreams (sec c))) pid want in
-      if len missing =? len want then (None, Some missing)
+      if none_present (map Pmt.epid (sstreams (sec c))) pid want then (None, Some missing)
       else (Some (spec_repack (hdrs_of pid true items)
                     ([pf c] ++ repeatN 255 (pf c) ++ sect ++ to_be32 (Crc32.crc sect))),
             match missing with [] => None | _ => Some missing end))
